@@ -21,7 +21,7 @@ Proof. unfold exec. apply fold_left_app. Qed.
 (* ---------------------------------------------------------------- frame: an op changes only the paths it names *)
 Definition op_paths (o : op) : list path :=
   match o with
-  | OStat f => [f] | OCreate t => [t] | OAppend t _ => [t] | OClose t => [t]
+  | OStat f => [f] | OCreate t => [t] | OAppend t _ => [t] | OClose t => [t] | OWrapClose t => [t]
   | ORename t f => [t; f] | OChmod f _ => [f] | ORemove t => [t]
   end.
 
@@ -51,7 +51,7 @@ Definition cells := (option file * option file)%type.
 Definition exec2_op (o : op) (s : cells) : cells :=
   let '(a, b) := s in
   match o with
-  | OStat _ | OClose _ => s
+  | OStat _ | OClose _ | OWrapClose _ => s
   | OCreate _ => (a, Some ([], temp_mode))
   | OAppend _ ch => (a, match b with Some (c, m) => Some (c ++ ch, m) | None => None end)
   | ORename _ _ => match b with Some x => (Some x, None) | None => s end
@@ -63,7 +63,7 @@ Definition exec2 (ops : list op) (s : cells) : cells := fold_left (fun s o => ex
 Definition addressed (f tmp : path) (o : op) : Prop :=
   match o with
   | OStat p | OChmod p _ => p = f
-  | OCreate p | OAppend p _ | OClose p | ORemove p => p = tmp
+  | OCreate p | OAppend p _ | OClose p | OWrapClose p | ORemove p => p = tmp
   | ORename p q => p = tmp /\ q = f
   end.
 
@@ -72,10 +72,11 @@ Lemma exec_op_cells f tmp o st :
   (exec_op o st f, exec_op o st tmp) = exec2_op o (st f, st tmp).
 Proof.
   intros Hne Ha. assert (Hne' : tmp <> f) by congruence.
-  destruct o as [p|p|p ch|p|p q|p m|p]; cbn in Ha.
+  destruct o as [p|p|p ch|p|p|p q|p m|p]; cbn in Ha.
   - reflexivity.
   - rewrite Ha. cbn. now rewrite set_same, set_other.
   - rewrite Ha. cbn. destruct (st tmp) as [[b m]|] eqn:E; [now rewrite set_same, set_other|now rewrite E].
+  - reflexivity.
   - reflexivity.
   - destruct Ha as [-> ->]. cbn. destruct (st tmp) as [x|] eqn:E; [|now rewrite E]. now rewrite set_same, set_other, set_same.
   - rewrite Ha. cbn. destruct (st f) as [[b m0]|] eqn:E; [now rewrite set_same, set_other|now rewrite E].
@@ -102,8 +103,9 @@ Qed.
 
 Lemma addressed_paths f tmp o : addressed f tmp o -> incl (op_paths o) [f; tmp].
 Proof.
-  destruct o as [p|p|p ch|p|p q|p m|p]; cbn; intros Ha x Hx.
+  destruct o as [p|p|p ch|p|p|p q|p m|p]; cbn; intros Ha x Hx.
   - destruct Hx as [<-|[]]. rewrite Ha. now left.
+  - destruct Hx as [<-|[]]. rewrite Ha. right. now left.
   - destruct Hx as [<-|[]]. rewrite Ha. right. now left.
   - destruct Hx as [<-|[]]. rewrite Ha. right. now left.
   - destruct Hx as [<-|[]]. rewrite Ha. right. now left.
@@ -169,32 +171,18 @@ Proof.
   assert (Hpre : forall w j, Nat.leb j (len w) = true -> produced oc = List.concat w ->
                  ok_cells a0 mode0 oc (a0, Some ([] ++ List.concat (firstn j w), temp_mode))).
   { intros w j _ Hp. left. cbn. split; [reflexivity|]. right. eexists. split; [reflexivity|]. rewrite Hp. apply concat_firstn_prefix. }
-  destruct oc as [| | | |w|w|w|w|w]; cbn [file_ops].
+  destruct oc as [| | | |w|w|w|w|w|w]; cbn [file_ops].
+  (* the outcomes with appends: cut inside the appends (Hpre), or inside the short tail of ops (enumerated) *)
+  5-10: (apply Hstart; intros j; rewrite exec2_appends; destruct (Nat.leb j (len w)) eqn:E; [apply (Hpre w j E eq_refl)|];
+       destruct (j - len w) as [|[|[|[|[|j']]]]]; cbn;
+       first [ left; cbn; split; [reflexivity|];
+               first [ left; reflexivity
+                     | right; eexists; split; [reflexivity|]; rewrite <- (app_nil_r (List.concat w)) at 2; apply is_prefix_app ]
+             | right; cbn; solve [auto 10] ]).
   - destruct k as [|[|k]]; left; cbn; auto.
   - destruct k as [|[|k]]; left; cbn; auto.
   - destruct k as [|[|[|k]]]; left; cbn; auto.
   - apply Hstart. intros j. destruct j as [|[|j]]; left; cbn; auto. split; [reflexivity|]. right. exists []. auto.
-  - apply Hstart. intros j. rewrite exec2_appends. destruct (Nat.leb j (len w)) eqn:E; [apply (Hpre w j E eq_refl)|].
-    destruct (j - len w) as [|[|j']]; cbn.
-    + left. cbn. split; [reflexivity|]. right. eexists. split; [reflexivity|]. apply is_prefix_app with (b := []) || (rewrite <- (app_nil_r (List.concat w)) at 2; apply is_prefix_app).
-    + left. cbn. auto.
-    + left. cbn. auto.
-  - apply Hstart. intros j. rewrite exec2_appends. destruct (Nat.leb j (len w)) eqn:E; [apply (Hpre w j E eq_refl)|].
-    destruct (j - len w) as [|[|[|j']]]; cbn; try (left; cbn; auto; fail);
-      left; cbn; (split; [reflexivity|]); right; eexists; (split; [reflexivity|]);
-      rewrite <- (app_nil_r (List.concat w)) at 2; apply is_prefix_app.
-  - apply Hstart. intros j. rewrite exec2_appends. destruct (Nat.leb j (len w)) eqn:E; [apply (Hpre w j E eq_refl)|].
-    destruct (j - len w) as [|[|[|j']]]; cbn; try (left; cbn; auto; fail);
-      left; cbn; (split; [reflexivity|]); right; eexists; (split; [reflexivity|]);
-      rewrite <- (app_nil_r (List.concat w)) at 2; apply is_prefix_app.
-  - apply Hstart. intros j. rewrite exec2_appends. destruct (Nat.leb j (len w)) eqn:E; [apply (Hpre w j E eq_refl)|].
-    destruct (j - len w) as [|[|[|j']]]; cbn; try (right; cbn; auto; fail);
-      left; cbn; (split; [reflexivity|]); right; eexists; (split; [reflexivity|]);
-      rewrite <- (app_nil_r (List.concat w)) at 2; apply is_prefix_app.
-  - apply Hstart. intros j. rewrite exec2_appends. destruct (Nat.leb j (len w)) eqn:E; [apply (Hpre w j E eq_refl)|].
-    destruct (j - len w) as [|[|[|[|j']]]]; cbn; try (right; cbn; auto; fail);
-      left; cbn; (split; [reflexivity|]); right; eexists; (split; [reflexivity|]);
-      rewrite <- (app_nil_r (List.concat w)) at 2; apply is_prefix_app.
 Qed.
 
 Lemma exec2_all_appends tmp w post a0 b m :
@@ -213,7 +201,7 @@ Qed.
 Lemma cells_final f tmp a0 mode0 oc :
   exec2 (file_ops f tmp mode0 oc) (a0, None) = (final_cell a0 mode0 oc, None).
 Proof.
-  destruct oc as [| | | |w|w|w|w|w]; cbn [file_ops]; try reflexivity;
+  destruct oc as [| | | |w|w|w|w|w|w]; cbn [file_ops]; try reflexivity;
     change (exec2 (opening f tmp ++ ?r) (a0, None)) with (exec2 r (a0, Some ([], temp_mode)));
     rewrite exec2_all_appends; reflexivity.
 Qed.
@@ -451,13 +439,13 @@ Lemma rename_chmod_window f tmp m0 ch st :
 Proof.
   intros Hne Hfr. cbn zeta. unfold crash_state. cbn [all_ops succeeds]. rewrite app_nil_r.
   cbn [file_ops]. rewrite !app_length. unfold appends. rewrite map_length. cbn [len opening].
-  replace (3 + (len ch + 3) - 1) with (3 + (len ch + 2)) by lia.
-  set (ops := firstn (3 + (len ch + 2)) (opening f tmp ++ map (OAppend tmp) ch ++ [OClose tmp; ORename tmp f; OChmod f m0])).
+  replace (3 + (len ch + 4) - 1) with (3 + (len ch + 3)) by lia.
+  set (ops := firstn (3 + (len ch + 3)) (opening f tmp ++ map (OAppend tmp) ch ++ [OWrapClose tmp; OClose tmp; ORename tmp f; OChmod f m0])).
   assert (Hadd : Forall (addressed f tmp) ops).
   { apply Forall_forall. intros o Ho. apply firstn_In in Ho. revert o Ho. apply Forall_forall.
     apply (file_ops_addressed f tmp m0 (Succeeds ch)). }
   pose proof (exec_cells f tmp ops st Hne Hadd) as Hc. rewrite Hfr in Hc. unfold ops in Hc.
   rewrite cells_opening_then in Hc. fold (appends tmp ch) in Hc. rewrite exec2_appends in Hc.
-  replace (Nat.leb (len ch + 2) (len ch)) with false in Hc by (symmetry; apply Nat.leb_gt; lia).
-  replace (len ch + 2 - len ch) with 2 in Hc by lia. cbn in Hc. inversion Hc as [[H1 H2]]. exact H1.
+  replace (Nat.leb (len ch + 3) (len ch)) with false in Hc by (symmetry; apply Nat.leb_gt; lia).
+  replace (len ch + 3 - len ch) with 3 in Hc by lia. cbn in Hc. inversion Hc as [[H1 H2]]. exact H1.
 Qed.
